@@ -232,6 +232,11 @@ class World(object):
             ("free variables(custom formula)", lambda: self._call(lambda: self.env.fvo.get_free_variables(self.custom_f), "terms")),
             ("subst s1 custom formula", lambda: self._call(lambda: self.custom_f.substitute({x: m.Plus(y, m.Int(1))}))),
             ("to_smtlib(custom formula)", lambda: self._call(lambda: to_smtlib(self.custom_f, daggify=True), "text")),
+            # a declaration that is rejected only at its closing parenthesis (two result sorts; cut before the end)
+            ("parse declare-fun with two result sorts", lambda: self._call(lambda: self.parser.get_script(io.StringIO(
+                "(declare-fun zz9 () Int Real)(assert (> zz9 0))")))),
+            ("parse declare-fun cut before its end", lambda: self._call(lambda: self.parser.get_script(io.StringIO(
+                "(declare-fun zz8 (Int) Int")))),
             # failing scripts that have already changed the parser's state when they fail: a logic under which
             # numerals are Reals, a definition, an open let binding
             ("parse LRA script, unknown command", lambda: self._call(lambda: self.parser.get_script(io.StringIO(
@@ -283,11 +288,21 @@ class World(object):
             ("simplify(phi4)", lambda: self._call(lambda: self.phi4.simplify()), True),
             ("type+fv phi1", lambda: self._call(lambda: [self.phi1] + sorted(self.phi1.get_free_variables(), key=lambda z: z.symbol_name()), "terms"), False),
             ("atoms phi4", lambda: self._call(lambda: self.phi4.get_atoms(), "terms"), False),
+            # the free symbols of the quantified formula, of its body (a disjunction with a quantified disjunct) and of
+            # a conjunction built over it - as text: one answer per formula
+            ("fv of phi3, its body, a conjunction over the body", lambda: self._call(lambda: " | ".join(
+                ",".join(sorted(z.symbol_name() for z in g_.get_free_variables()))
+                for g_ in (self.phi3, self.phi3.arg(0), m.And(self.phi3.arg(0), p), m.Not(self.phi3.arg(0)))), "text"), False),
             ("to_smtlib dag phi1", lambda: self._call(lambda: to_smtlib(self.phi1, daggify=True), "text"), False),
             ("to_smtlib tree phi4", lambda: self._call(lambda: to_smtlib(self.phi4, daggify=False), "text"), False),
             ("serialize phi3", lambda: self._call(lambda: self.phi3.serialize(), "text"), False),
             ("parse good script", lambda: self._call(lambda: self.parse_smt("(assert (and p (< x (+ y 1))))(push 1)(assert (= (f x) (* 2 y)))(pop 1)(assert (or q p))"), "terms"), False),
             ("And(p,x) again", lambda: self._call(lambda: m.And(p, x)), False),
+            # names that only REJECTED declarations mentioned: still undefined, still free for another sort
+            ("zz9 / zz8 after rejected declarations", lambda: self._call(lambda: " ".join(self._outcome(fn) for fn in (
+                lambda: m.get_symbol("zz9").symbol_type(), lambda: m.get_symbol("zz8").symbol_type(),
+                lambda: self.parse_smt("(declare-fun zz9 () Real)(assert (> zz9 0.5))", which=0)[0].serialize(),
+                lambda: self.hr.parse("zz8 + 1"))), "text"), False),
             # (reported as text: whether b12 is NEW to the environment legitimately differs between the two runs)
             ("b12 with the environment's own BV12, normalize, parse", lambda: self._call(lambda: " ".join(self._outcome(fn) for fn in (
                 lambda: m.Not(m.Equals(m.Symbol("b12", self.env.type_manager.BVType(12)), m.BV(7, 12))).serialize(),
